@@ -377,6 +377,34 @@ def load(module: str, names: List[str], ns: Dict[str, Any], _depth: int = 0) -> 
     return ns
 
 
+def auto_methods(module: str, classnames, ns: Dict[str, Any]):
+    """base class for a stand-in of an instance of a real class: what the stand-in defines itself wins; any other attribute that is
+    a method of the real class (first of `classnames` that has it, in the same module) is compiled from the working tree on first
+    use and bound to the stand-in -- so a helper method that is added to the real class later is found"""
+    import types
+    names = [classnames] if isinstance(classnames, str) else list(classnames)
+
+    class Auto:
+        def __getattr__(self, name):
+            if name.startswith("__"):
+                raise AttributeError(name)
+            for cn in names:
+                try:
+                    fn = core.find_def(module, f"{cn}.{name}")
+                except LookupError:
+                    continue
+                if isinstance(fn, ast.FunctionDef):
+                    sub = dict(ns)
+                    load(module, [f"{cn}.{name}"], sub)
+                    f = sub[name]
+                    decos = [d.id for d in fn.decorator_list if isinstance(d, ast.Name)]
+                    if "staticmethod" in decos:
+                        return f
+                    return types.MethodType(f, type(self) if "classmethod" in decos else self)
+            raise AttributeError(name)
+    return Auto
+
+
 def base_namespace() -> Dict[str, Any]:
     return {
         "pi": SQ.of(PI), "inf": float("inf"), "zeros": zeros, "float": lambda x: x, "float64": lambda x: x,
